@@ -259,7 +259,7 @@ type scenario struct {
 }
 
 var terminators = []string{"peer-close", "stream-error", "handler-error", "deadline"}
-var forced = []string{"X1a", "X1b", "X2", "X3", "X4", "X5a", "X5b", "X6"}
+var forced = []string{"X1a", "X1b", "X2", "X3", "X4", "X5a", "X5b", "X6", "X7"}
 
 func run(c *core.Case) {
 	if c.Index < len(forced)*2 {
@@ -925,6 +925,65 @@ func runForced(c *core.Case, id string, s2s bool) {
 		w.p.Lib.SetFault(bufconn.NoFault())
 		c.Count("close_under_write_fault", 1)
 		smp.Closers = 2
+	case "X7":
+		// A sender's context ends while its element is being written (the common
+		// "defer cancel()" idiom, moved a few microseconds earlier).  The helper
+		// goroutine that arms the transport's write deadline for that context is
+		// parked right after arming it.  Meanwhile the peer sends an IQ that the
+		// handler answers: that unrelated write must not fail, and Serve must not
+		// end, because of a deadline that belongs to a call that is over.
+		r1 := ct.Park("wdl.armed", "")
+		ctx, cancel := context.WithCancel(context.Background())
+		w.p.Lib.SetWriteHook(func(b []byte) {
+			if bytes.Contains(b, []byte("x7")) {
+				cancel()
+				r1.WaitArrived(5 * time.Second)
+			}
+		})
+		sendDone := make(chan struct{})
+		go func() {
+			defer close(sendDone)
+			e := w.h.begin("sender", "transmit:Send", "x7")
+			err := entries[0].do(ctx, w.p.S, "x7")
+			out, d := classifyErr(err)
+			w.h.end(e, out, d)
+		}()
+		if !r1.WaitArrived(wait) {
+			c.Inconclusive("X7: the write-deadline helper did not reach wdl.armed")
+			r1.Release()
+			cancel()
+			return
+		}
+		c.Count("yield:wdl.armed", 1)
+		w.p.Lib.SetWriteHook(nil)
+		w.p.Send("<iq type='get' id='h-x7' from='peer@example.org/p'><q xmlns='urn:verif:c10'/></iq>")
+		// wait until the handler has been invoked (it logs before it writes), then a
+		// little longer, or until Serve gave up
+		deadline := time.Now().Add(20 * time.Second)
+		for time.Now().Before(deadline) {
+			seen := false
+			w.h.mu.Lock()
+			for _, e := range w.h.evs {
+				if e.Op == "transmit:HandlerReply" && e.Marker == "h-x7" {
+					seen = true
+				}
+			}
+			w.h.mu.Unlock()
+			if seen {
+				break
+			}
+			time.Sleep(time.Millisecond)
+		}
+		select {
+		case err := <-w.serveCh:
+			w.serveCh <- err
+		case <-time.After(100 * time.Millisecond):
+		}
+		r1.Release()
+		<-sendDone
+		cancel()
+		smp.Senders = 1
+		c.Count("cancelled_sender_deadline_scenarios", 1)
 	case "X4": // a user's Close is parked; the peer closes and Serve shuts down; then the user continues
 		r1 := ct.Park("close.enter", "")
 		d1 := closeAsync("closer1")
@@ -962,7 +1021,7 @@ func Prop() *core.Prop {
 		ID:    "C10",
 		Level: core.Exploration,
 		Race:  true,
-		Rule:  "the first 16 cases are the forced scenarios X1a/X1b/X2/X3/X4 (orderings at the close.enter / senderr.enter yield points) X5a/X5b (the transport fails, entirely or after 5 bytes, exactly on the write of the closing tag) and X6 (a transport with synchronous writes in both directions: Close blocked on the closing tag while the peer sends two more stanzas before reading), each c2s and s2s; the rest are stress histories on one served session: 0-3 closers (1-3 Close calls each, sometimes SetCloseDeadline), 1-4 senders drawing from 13 transmit entry points, peer-injected IQs answered by the handler, and one terminator from {peer close tag, peer stream error, handler error, silence + 50 ms close deadline} issued early or after the actors; afterwards every entry point is called once more on the closed session. Oracles: closing-tag count and bytes after it on the peer side; porcupine check of the recorded history against a two-state closable-log model; marker-on-wire side conditions; State()/TokenReader after Serve; Serve's return per terminator. Distinct = (kind, terminator, closers, some transmit overlapped a Close?, some transmit began after a Close returned?, tags).",
+		Rule:  "the first 18 cases are the forced scenarios X1a/X1b/X2/X3/X4 (orderings at the close.enter / senderr.enter yield points) X5a/X5b (the transport fails, entirely or after 5 bytes, exactly on the write of the closing tag) and X6 (a transport with synchronous writes in both directions: Close blocked on the closing tag while the peer sends two more stanzas before reading) and X7 (a sender's context ends during its write and the write-deadline helper is parked at wdl.armed while the handler answers a peer IQ), each c2s and s2s; the rest are stress histories on one served session: 0-3 closers (1-3 Close calls each, sometimes SetCloseDeadline), 1-4 senders drawing from 13 transmit entry points, peer-injected IQs answered by the handler, and one terminator from {peer close tag, peer stream error, handler error, silence + 50 ms close deadline} issued early or after the actors; afterwards every entry point is called once more on the closed session. Oracles: closing-tag count and bytes after it on the peer side; porcupine check of the recorded history against a two-state closable-log model; marker-on-wire side conditions; State()/TokenReader after Serve; Serve's return per terminator. Distinct = (kind, terminator, closers, some transmit overlapped a Close?, some transmit began after a Close returned?, tags).",
 		Assumptions: []string{
 			"a transmit that overlaps a Close in time may land on either side of the closing tag",
 			"handler replies are buffered until the handler returns, so their on-wire side condition is not demanded; their error value is",
@@ -976,7 +1035,7 @@ func Prop() *core.Prop {
 			return len(forced)*2 + 70
 		},
 		Run: run,
-		Require: []string{"forced_scenarios", "stress_histories", "close_under_write_fault", "close_returns_with_wire_snapshot", "synchronous_transport_closes", "yield:close.enter", "yield:senderr.enter", "transmits_overlapping_a_close",
+		Require: []string{"forced_scenarios", "stress_histories", "close_under_write_fault", "close_returns_with_wire_snapshot", "synchronous_transport_closes", "cancelled_sender_deadline_scenarios", "yield:close.enter", "yield:senderr.enter", "transmits_overlapping_a_close",
 			"transmits_begun_after_a_close_returned", "late_transmits", "porcupine_checks",
 			"serve_returned:peer-close", "serve_returned:stream-error", "serve_returned:handler-error", "serve_returned:deadline"},
 		ReplayRepeats: 10,
